@@ -32,6 +32,19 @@ CHECKS = {
          "bounds/overflow sites outside these rules, loop termination in CFF/autohint code, non-finite floats.",
     note="Trusted: rustc MIR, call-graph construction (A-CB), confirmed per-function reasons in rules/confirmed_panics_client.json, the brotli FFI.",
  ),
+ "C04": dict(
+    technique="syn-level agreement analysis between generated reader, shape marker, getters, writer and validator (finite statement grammar, fail closed)",
+    design_ref="DESIGN.md §4 C04, C01-d",
+    text="Decides sibling agreement for every generated table/record: read() and the marker's byte-range functions walk the same "
+         "fields in the same order with the same widths and version/flag conditions (254 markers, ~1150 getters); each getter reads "
+         "the width and optionality of its slot and an open-ended getter is on the last field; every unwrap in a generated reader "
+         "file is a recognised getter form; for ~200 reader/writer type pairs the writer emits the same wire fields in the same "
+         "order, width and condition (schema #[compile(skip)] fields need a confirmed reason); the count a reader uses to size an "
+         "array is written from that array's length; every array-length unwrap in write_into is covered by a length report in "
+         "validate_impl (6 known findings, F11). Oracle = sibling agreement, not round-trip execution; hand-written compute_* "
+         "values, FromObjRef conversions and idempotence are not decided.",
+    note="Trusted: syn parsing; the statement grammar enumerated from font-codegen (anything else fails closed). One genuine defect repaired in the generator (F2).",
+ ),
  "C05": dict(
     technique="path-sensitive typestate {dirty,clean} over MIR, dominating-guard and who-may-call queries, cast census, sibling-predicate agreement",
     design_ref="DESIGN.md §4 C05",
@@ -154,6 +167,7 @@ def main():
       },
       "engines": [
         {"name": "fvdriver", "path": "driver/", "serves_properties": sorted(CHECKS), "kind_free_text": "rustc_private driver dumping type-checked MIR, ADT/impl/layout/static facts and an instance-level call graph as JSON"},
+        {"name": "gencheck", "path": "gencheck/", "serves_properties": ["C01", "C04", "C20"], "kind_free_text": "syn-based dumper of generated reader/writer files (statement-level token strings); agreement logic in fvlib/gen.py and rules/c04*.py"},
         {"name": "fvlib", "path": "fvlib/", "serves_properties": sorted(CHECKS), "kind_free_text": "python analyses over the facts: dominators, path-sensitive typestate, must-write dataflow, intervals, call-graph SCCs, who-may-call queries"},
       ],
       "checks": [],
